@@ -219,7 +219,7 @@ Definition c07_bounds_ok : bool :=
    was not placed anywhere - and has a size: the needed space is the sum of the sizes of what could not be placed, so a
    target whose probe found no samples needs none (coordinator.go `needSpace.IsZero()`, C07_no_shrink's premise) *)
 Definition fits_alone (c : cstat) : bool :=
-  ((max_head o =? 0) || (c_series c <? max_head o)) && (c_total c <? max_proc o).
+  ((max_head o =? 0) || (c_series c <? max_head o)) && (c_total c <? max_proc o) && negb (max_proc o <? c_series c).   (* the last conjunct: isTooBig also compares the series with the process limit *)
 Definition placed_somewhere (h : N) : bool :=
   existsb (fun k => existsb (fun t => N.eqb (pt_hash t) h) (newly k)) all_k.
 Definition pending_eligible : bool :=
